@@ -16,7 +16,9 @@ RULE = ("E1: shapes of all six classes (BSpline/NURBS x Curve/Surface/Volume), k
         "judged for ==, reversed ==, != ; non-trivial = every pair")
 ASSUMPTIONS = [
     "comparison tolerance finer than 1e-3 (any decimal-places tolerance is; the default 'precision' is 18 decimal places)",
-    "all shapes use the default precision, so both operands have the same tolerance",
+    "both operands of a pair are built with the same precision, so they have the same tolerance",
+    "the comparison tolerance of a shape built with precision=k (documented as a number of decimal places) is 10**-k: a change "
+    "of 5 * 10**-k in one homogeneous coordinate (magnitude ~5000) must make the shapes unequal",
     "a degree changed through the setter alone leaves an inconsistent object; it still has to compare unequal",
 ]
 DELTAS = [1e-3, 0.5, 2, 20]
@@ -107,6 +109,11 @@ def gen_cases(tier, seed):
     for d in _base_descs(tier):
         cases.append(dict(kind='base', shape=d))
     cases.append(dict(kind='cross'))
+    # shapes built with an explicit precision (number of decimal places): a change of 5 * 10**-precision in a large
+    # coordinate must be seen (a relative comparison would hide it)
+    for d in _base_descs('quick')[:6 if tier == 'quick' else None]:
+        for k in (3, 6, 9):
+            cases.append(dict(kind='precision', shape=d, precision=k))
     return cases
 
 
@@ -164,9 +171,35 @@ def _set_deg(obj, d, p):
         setattr(obj, 'degree_' + 'uvw'[d], p)
 
 
+def _precision(case, ctx):
+    desc, k = case['shape'], case['precision']
+    rat = desc['rational']
+    a = S.build(desc, ctx.seed, precision=k)
+    sizes = _sizes(a)
+    P0 = [[c * 64.0 + 5200.0 for c in p] for p in (a.ctrlptsw if rat else a.ctrlpts)]
+    a.set_ctrlpts([list(p) for p in P0], *sizes)
+    f0 = dict(pdim=desc['pdim'], rational=rat, precision=k, component='ctrlpt_precision')
+    ctx.state(dict(d=desc, k=k), nontrivial=True)
+    _judge(ctx, 'deepcopy', a, copy.deepcopy(a), True, dict(case), dict(f0, delta=0))
+    delta = 5.0 * 10 ** (-k)
+    for i in range(len(P0)):
+        for c in range(len(P0[0])):
+            if 'only' in case and case['only'] != [i, c]:
+                continue
+            b = copy.deepcopy(a)
+            P = [list(p) for p in P0]
+            P[i][c] += delta
+            if P[i][c] == P0[i][c]:
+                continue
+            b.set_ctrlpts(P, *sizes)
+            _judge(ctx, 'ctrlpt_precision', a, b, False, dict(case, only=[i, c]), dict(f0, index=i, coord=c, delta=delta))
+
+
 def run_case(case, ctx):
     if case['kind'] == 'cross':
         return _cross(case, ctx)
+    if case['kind'] == 'precision':
+        return _precision(case, ctx)
     desc = case['shape']
     a = S.build(desc, ctx.seed)
     rat = desc['rational']
